@@ -22,6 +22,24 @@ def main() -> None:
     except Exception as e:  # an exception escaping the harness body is a failure of `post`
         out["kernel"] = "reproduced"
         out["kernel_value"] = "raised {}: {}".format(type(e).__name__, e)
+    if out["kernel"] == "not-reproduced":
+        # the solver's values may depend on state left by earlier paths of the same CrossHair
+        # process (e.g. a module-level cache in the code under test).  If the harness offers a small
+        # replay domain, look in a fresh process for values that do fail: only such a reproducible
+        # witness is ever reported
+        dom = getattr(mod, "dom_" + req["func"][3:], None)
+        if dom is not None:
+            for cand in dom():
+                try:
+                    bad = fn(*cand) is False
+                except Exception:
+                    bad = True
+                if bad:
+                    out["kernel"] = "reproduced"
+                    out["kernel_value"] = "False for the nearby values %r (solver's own values %r did not reproduce in a fresh process)" % (cand, args)
+                    args, kwargs = list(cand), {}
+                    out["replayed_args"] = list(cand)
+                    break
     why = getattr(mod, "why_" + req["func"][3:], None)
     if why is not None:
         try:
